@@ -74,6 +74,7 @@ type rigStep struct {
 	Mode string `json:"mode,omitempty"` // restart: clean|kill ; replica: replay_log|restore_snapshot
 
 	Type     string `json:"type,omitempty"` // apply: robust message type
+	ExpandBody bool `json:"expand_body,omitempty"` // http: "@sid10:ALIAS@" in the body is replaced by the decimal id of ALIAS
 	ClockMs  int64  `json:"clock_ms,omitempty"` // apply: the entry is stamped now+clock_ms (as by a leader whose clock is ahead/behind)
 	Revision uint64 `json:"revision,omitempty"`
 	Remote   string `json:"remote,omitempty"`
@@ -993,7 +994,19 @@ func (c *rigChild) step(st rigStep, r *rigResult) {
 		}
 		var body io.Reader
 		if st.Body != nil {
-			body = strings.NewReader(*st.Body)
+			b := *st.Body
+			for st.ExpandBody {
+				i := strings.Index(b, "@sid10:")
+				if i < 0 {
+					break
+				}
+				j := strings.Index(b[i+1:], "@")
+				if j < 0 {
+					break
+				}
+				b = b[:i] + c.sidString(b[i+7:i+1+j], "dec") + b[i+2+j:]
+			}
+			body = strings.NewReader(b)
 		}
 		basicDefault := "none"
 		if st.Op == "private" {
